@@ -11,8 +11,9 @@ import time
 from typing import Any, Dict, List, Optional
 
 ROOT = os.path.dirname(os.path.dirname(os.path.abspath(__file__)))
-EVIDENCE_DIR = os.path.join(ROOT, "evidence")
-REPLAY_DIR = os.path.join(ROOT, "replays")
+EVIDENCE_DIR = os.environ.get("VERIF_EVIDENCE_DIR") or os.path.join(ROOT, "evidence")
+REPLAY_DIR = os.path.join(ROOT, "replays") if not os.environ.get("VERIF_EVIDENCE_DIR") else \
+    os.path.join(os.environ["VERIF_EVIDENCE_DIR"], "replays")
 KNOWN_FILE = os.path.join(ROOT, "known_findings.json")
 REPO_PY = "/venv/bin/python"
 
